@@ -32,6 +32,11 @@ def run_server(prop, mode, tier, seed, replay, rule, nontrivial):
             q = fl["q"]
             if cl.startswith("tilesjson"):
                 continue      # the served tiles.json is judged for C17 (checks/c17.py runs the same stage)
+            if cl == "plain_inside_not_served":
+                # not a clause of C07 (a server that serves nothing leaves no root either) but the check would be vacuous:
+                # reported as an observation
+                run.observation(cl, {"target": fl["target"], "resp": fl["resp"]})
+                continue
             if cl.startswith("api_"):
                 run.observation(cl, {"target": fl["target"], "index": q.get("index"), "ids": q.get("ids"), "status": q.get("status"), "unknown": q.get("unknown")})
                 continue
